@@ -430,7 +430,7 @@ func (r *run) convert(cur *node, v Value, from, to types.Type) Value {
 			cur.setPV(heap, c.Store(h, ref, content))
 			ln := r.uf("len.of$"+typeKey(to), r.idx(), sv.T)
 			r.assume(c.True(), r.sle(r.idxConst(0), ln))
-			r.assume(c.True(), r.sle(ln, r.idxConst(1<<40)))
+			r.assume(c.True(), r.sle(ln, r.idxConst(r.E.sliceBound())))
 			// []rune(s) decodes s faithfully (no byte replaced by U+FFFD) exactly when s is valid UTF-8.
 			// The link is stated only when a contract file declares the two predicates:
 			//   u8_valid_str(Str) Bool   and   u8_faithful((Array idx rune) idx idx) Bool
@@ -643,7 +643,7 @@ func (r *run) builtin(fr *frame, cur *node, x *ssa.Call, b *ssa.Builtin, args []
 				if s, ok := r.E.strConstValue(a.T); ok {
 					return Scalar{r.idxConst(int64(len(s)))}
 				}
-				ln := r.uf("str.len", r.idx(), a.T)
+				ln := r.uf("strlen$", r.idx(), a.T)
 				r.assume(c.True(), r.sle(r.idxConst(0), ln))
 				return Scalar{ln}
 			}
@@ -720,7 +720,7 @@ func (r *run) appendOp(fr *frame, cur *node, x *ssa.Call, args []Value) Value {
 	newCap := c.Fresh("appendcap", r.idx())
 	newLen := r.iadd(dst.Len, r.idxConst(1))
 	r.assume(c.True(), r.sle(newLen, newCap))
-	r.assume(c.True(), r.sle(newCap, r.idxConst(1<<40)))
+	r.assume(c.True(), r.sle(newCap, r.idxConst(r.E.sliceBound())))
 	return SliceV{
 		Base: Loc{Heap: dst.Base.Heap, Idxs: []*smt.Term{c.Ite(inPlace, dst.Base.Idxs[0], newRef)}, T: dst.Base.T},
 		Off:  dst.Off, Len: newLen, Cap: c.Ite(inPlace, dst.Cap, newCap),
@@ -787,7 +787,7 @@ func (r *run) appendStruct(fr *frame, cur *node, x *ssa.Call, dst, src SliceV) V
 	newCap := c.Fresh("appendcap", r.idx())
 	newLen := r.iadd(dst.Len, r.idxConst(1))
 	r.assume(c.True(), r.sle(newLen, newCap))
-	r.assume(c.True(), r.sle(newCap, r.idxConst(1<<40)))
+	r.assume(c.True(), r.sle(newCap, r.idxConst(r.E.sliceBound())))
 	return SliceV{
 		Base: Loc{Heap: dst.Base.Heap, Idxs: []*smt.Term{c.Ite(inPlace, dst.Base.Idxs[0], newRef)}, T: dst.Base.T},
 		Off:  dst.Off, Len: newLen, Cap: c.Ite(inPlace, dst.Cap, newCap),
